@@ -24,6 +24,10 @@ CONV = {"osu": ["OsuToQua", "OsuToSM", "OsuToBMS"], "qua": ["QuaToOsu", "QuaToSM
         "bms": ["BMSToOsu", "BMSToQua", "BMSToSM"], "o2j": ["O2JToOsu", "O2JToQua", "O2JToSM", "O2JToBMS"]}
 
 
+def pinned(tier):
+    return [dict(cls="repo_test_suite", select=None)] if tier == "thorough" else []
+
+
 def gen(rng, tier, k):
     from rv.gen import charts
 
@@ -98,6 +102,9 @@ def alias_probe(ctx, op, inp, result):
 
 
 def run(ctx, case):
+    if case.get("cls") == "repo_test_suite":
+        from rv.suite import run_repo_tests
+        return run_repo_tests(ctx, case.get("select"))
     import importlib
     import os
     import random
@@ -186,7 +193,7 @@ def run(ctx, case):
                 res = None
                 inp = obj
                 if name == "rate":
-                    res = obj.rate(r.choice([0.5, 1.5, 2.0]))
+                    res = obj.rate(r.choice([0.5, 1, 1.0, 1.5, 2.0]))
                 elif name == "deepcopy":
                     res = obj.deepcopy()
                 elif name == "describe":
